@@ -81,7 +81,16 @@ def run(ck, ctx):
                     inv.setdefault((key, _pc_key(e.pc, ws)), []).append((idx, e))
                     break
         n = 0
+        # a call site evaluated several times (unrolled loop) is several invocations: split each group into runs
+        # that start at a mutation
+        split = {}
         for (key, pck), lst in inv.items():
+            run_no = -1
+            for i, e in sorted(lst, key=lambda t: t[0]):
+                if e in muts:
+                    run_no += 1
+                split.setdefault((key, pck, max(run_no, 0)), []).append((i, e))
+        for (key, pck, _run), lst in split.items():
             m = [(i, e) for i, e in lst if e in muts]
             w = [(i, e) for i, e in lst if e.kind == "io-write"]
             if not m:
